@@ -99,7 +99,9 @@ def run(prop, tier, seed, replay=None):
             jb = jobs(tier)
             core.gen_module(w, 'MCR', ['MC_Readers'], {
                 'c_TokKinds': core.Raw('{' + ', '.join(core.tla(x) for x in (kq if tier == 'quick' else kt)) + '}'),
-                'c_CLabels': core.Raw('{' + ', '.join(core.tla(ch(x)) for x in ['S-SB-1', 'X#Y', 'EMPTY-HD']) + '}'),
+                'c_CLabels': core.Raw('{' + ', '.join(core.tla(ch(x)) for x in (['S-SB-1', 'X#Y', 'EMPTY-HD'] if tier == 'quick' else ['S-SB-1', 'X#Y'])) + '}'),
+                # (thorough: the third label would more than double a model that is at the heap limit; labels spelled
+                #  like the default label are in the random corpora of both tiers)
                 'c_CEdges': core.Raw('{' + ', '.join(core.tla(ch(x)) for x in (['HD'] if tier == 'quick' else ['HD', '--'])) + '}'),
                 'c_Jobs': core.Raw('{' + ', '.join(core.tla(j) for j in jb) + '}'),
                 'c_BrTab': cfgc['brtab']})
